@@ -344,6 +344,11 @@ func oracleC02(w *World, rec *BlockRecord, t *TxInfo) {
 		if ea != nil && (ea.IsModule || ea.Vesting != nil) && !inRef {
 			continue
 		}
+		// an account that had code before the tx, is gone afterwards and still exists for the reference did not
+		// self-destruct (or its self-destruct was reverted): C15's "never deletes an account that still has code"
+		if ea == nil && inRef && len(pre.CodeHash[a]) > 0 && len(ra.Code) > 0 {
+			r.Violate("C15", "contract_deleted_without_self_destruct", nil, "contract %s (code %d bytes) is deleted by the tx although in the reference execution no self-destruct of it survives", a.Hex(), len(ra.Code))
+		}
 		if rn != en {
 			differs(disc("nonce"), "nonce of %s is %d, go-ethereum gives %d", a.Hex(), en, rn)
 		}
@@ -633,6 +638,7 @@ func c02AfterBlock(w *World, rec *BlockRecord, txs []*TxInfo) {
 
 func init() {
 	templates["raw"] = func() []byte { return nil }
+	templates["rawinit"] = func() []byte { return nil }
 	Arms["C02"] = &Arm{Gen: genC02, Run: runPc()}
 	_ = sort.Strings
 	_ = ethcrypto.Keccak256
